@@ -41,6 +41,8 @@ func dispatch(rp replayFile, verbose bool) bool {
 		replayLineReader(rp.Input)
 	case "descs":
 		replayDescs(rp.Input)
+	case "twopiece":
+		replayTwoPiece(rp.Input)
 	case "scanner":
 		replayScanner(rp.Input, verbose)
 	case "rotation":
